@@ -58,6 +58,26 @@ INFIX = ["|", "|", "|", ",", "+", "-", "*", "/", "%", "==", "!=", "<", "<=", ">"
 ASSIGNABLE = ["style", "tag", "type", "anchor", "alias", "line_comment", "head_comment", "foot_comment"]
 
 
+NUMPARAM_FNS = ["flatten", "parent", "to_json", "to_yaml", "to_xml", "tojson", "toyaml", "toxml"]
+NUMPARAM_WS = ["", " ", "\t", "\n", "  ", " \t "]
+NUMPARAM_NUMS = ["0", "1", "2", "7", "", "-1", "+1", "007", "1.5", "1e3", "0x1", "1_0", "99999999999", "99999999999999999999", "18446744073709551616", "1 2", "a"]
+
+
+def g_numparam(rng):
+    """name(<blanks>number<blanks>) : the lexer rules with an embedded number."""
+    return "%s(%s%s%s)" % (rng.choice(NUMPARAM_FNS), rng.choice(NUMPARAM_WS), rng.choice(NUMPARAM_NUMS), rng.choice(NUMPARAM_WS))
+
+
+def numparam_all():
+    out = []
+    for fn in NUMPARAM_FNS[:5]:
+        for a in NUMPARAM_WS[:4]:
+            for n in NUMPARAM_NUMS:
+                for b in NUMPARAM_WS[:4]:
+                    out.append("%s(%s%s%s)" % (fn, a, n, b))
+    return out
+
+
 def g_key(rng):
     return rng.choice(KEYS)
 
@@ -142,8 +162,10 @@ def g_expr(rng, depth=0):
         return g_path(rng)
     if r < 0.36:
         return g_literal(rng, depth)
-    if r < 0.45:
+    if r < 0.43:
         return rng.choice(NULLARY)
+    if r < 0.45:
+        return g_numparam(rng)
     if r < 0.52:
         return rng.choice(["$x", "$i", ".", ".", "$__yq_undefined"])
     if r < 0.66:
@@ -811,6 +833,13 @@ def search_cases(chk, thorough):
             d = yaml_doc(rng)
             reqs.append(mk_req(e, d, "yaml", rng.choice(["yaml", "yaml", "json", "props", "xml", "csv"]) if rng.random() < 0.5 else "yaml", rng.random() < 0.2))
             streams.append("expr-" + stream)
+    # every spelling of the operators that carry a number in their token (blanks at every position, signs, huge, empty)
+    for e in numparam_all():
+        d = rng.choice(["[[1, [2]], [3]]\n", "a: {b: [1, {c: 2}]}\n", "[1, 2]\n"])
+        reqs.append(mk_req(e, d, "yaml", "yaml", False))
+        streams.append("expr-numparam")
+        reqs.append(mk_req(".. | " + e, d, "yaml", "json", False))
+        streams.append("expr-numparam")
     n_fmt = 20000 if thorough else 300
     for fmt in IN_FORMATS:
         for i in range(n_fmt):
